@@ -18,7 +18,7 @@ EXPLANATION = (
 ASSUMPTIONS = ["detail::condition_variable::wait/wait_until release and re-acquire the lock they are given (C02/C07)",
                "callers of the detail classes pass the lock that protects the semaphore (checked for the public wrappers in R6)"]
 THOROUGH_CONFIGS = [["-UNDEBUG", "-DPIKA_DEBUG"]]
-FLOORS = {"C08.R1": 14, "C08.R2": 3, "C08.R3": 2, "C08.R4": 6, "C08.R5": 4, "C08.R6": 10, "C08.R7": 8}
+FLOORS = {"C08.R8": 5, "C08.R1": 14, "C08.R2": 3, "C08.R3": 2, "C08.R4": 6, "C08.R5": 4, "C08.R6": 10, "C08.R7": 8}
 
 CS = "pika::detail::counting_semaphore"
 SS = "pika::detail::sliding_semaphore"
@@ -45,6 +45,10 @@ def run(rep, tier):
     rep.rule("C08.R3", "K7: wait_until returns false for exactly those values of condition_variable::wait_until's return set that mean timeout")
     rep.rule("C08.R4", "K7: try_acquire/try_wait/wait_until return true iff the path consumed a permit")
     rep.rule("C08.R5", "K2/K1: signal adds permits before waking; re-locks after each consumed lock; wake loop exits only on no-waiters/no-permits/count")
+    rep.rule("C08.R8", "K7 (evaluated on a grid of upper limit / window / lower limit): sliding_semaphore::wait blocks exactly while upper_limit - "
+                       "max_difference_ > lower_limit_, parks in cond_.wait on every turn and re-tests after every wake-up; try_wait succeeds exactly when "
+                       "the limit is inside the window and never blocks otherwise; signal never lowers lower_limit_; the wake loops of both "
+                       "semaphores stop early only when notify_one found nobody waiting")
     rep.rule("C08.R6", "K8: public wrappers lock mtx_ and forward; sync_wait stores its result before sem.release()")
 
     F = facts(rep, lib("synchronization", "src/detail/counting_semaphore.cpp"), [r"^pika::detail::counting_semaphore::"])
@@ -98,7 +102,9 @@ def run(rep, tier):
         ff = FactFlow(fn, kill=kill)
         ds = decrements(fn, VALP)
         if not ds:
-            raise AnalysisBroken("%s::%s does not consume permits any more" % (CS, n))
+            rep.bad("C08.R2", fn, fn.loc, "never-consumes", "%s::%s returns successfully without taking permits out of %s: more acquisitions succeed than "
+                    "permits were released" % (CS, n, VAL))
+            continue
         for b, i, ev, amt in ds:
             fb = ff.before.get((b, i))
             if fb is None:
@@ -166,8 +172,11 @@ def run(rep, tier):
         return pos
     for fn, need_calls in ((cs["try_acquire"], False), (cs["try_wait"], True), (cs["wait_until"], False), (ss["try_wait"], True)):
         marks = consumed_marks(fn)
+        if not marks and fn is ss["try_wait"]:
+            continue     # a sliding semaphore has no permits to take: its try_wait is decided by value in R8 (window arithmetic)
         if not marks:
-            raise AnalysisBroken("%s: no consuming operation found" % fn.qname)
+            rep.bad("C08.R4", fn, fn.loc, "never-consumes", "%s has no path that takes a permit: it can only report success without consuming one" % fn.qname)
+            continue
 
         def tr(st, ev, pos, marks=marks):
             return st | {"w"} if pos in marks else st
@@ -329,6 +338,9 @@ def run(rep, tier):
             else:
                 rep.ok("C08.R5", fn, "wake loop exits only on %s" % (allowed,))
 
+    sliding_window_rules(rep, ss)
+    wake_break_rules(rep, [cs["signal"], ss["signal"]])
+
     # R6 wrappers
     D = facts(rep, driver("c08_semaphore.cpp"),
               [r"^pika::counting_semaphore::", r"^pika::sliding_semaphore_var::", r"^pika::sync_wait_detail::sync_wait_receiver_impl::sync_wait_receiver_type::"])
@@ -403,3 +415,126 @@ def run(rep, tier):
 
 def short_(q):
     return q.rsplit("::", 1)[-1]
+
+
+def sliding_window_rules(rep, ss):
+    """C08.R8, first part - see the rule text"""
+    from engine.kinds import eval_walk
+    wt, tw, sg = ss["wait"], ss["try_wait"], ss["signal"]
+
+    def is_park(e):
+        return e.get("k") == "call" and callee_short(e) == "wait" and e.get("recv") is not None and P(e["recv"]) == "this->cond_"
+
+    def limit_param(fn):
+        ps = [p_["name"] for p_ in fn.params if re.search(r"int|long", str(p_.get("type", ""))) and "unique_lock" not in str(p_.get("type", ""))]
+        if len(ps) != 1:
+            raise AnalysisBroken("%s: the limit parameter was not identified (%s)" % (fn.qname, ps))
+        return ps[0]
+    grid = [(u, d, l) for u in (0, 5, 10) for d in (0, 1, 3) for l in (u - d - 2, u - d - 1, u - d, u - d + 1, u + 4)]
+    up = limit_param(wt)
+    bad = None
+    n = 0
+    for u, d, l in grid:
+        env = {up: u, "this->max_difference_": d, "this->lower_limit_": l}
+        must_wait = (u - d) > l
+        for evs, end in eval_walk(wt, wt.entry, tree_env=env):
+            n += 1
+            parked = any(is_park(e) for _, _, e in evs)
+            if end == "limit":
+                raise AnalysisBroken("sliding_semaphore::wait: not decided for %s" % env)
+            if must_wait and not parked:
+                bad = bad or ("no-park", env, "does not park in cond_.wait although the limit is outside the window" + (" (it spins with the lock held)" if end == "loop" else " (returns at once)"))
+            elif must_wait and end != "loop":
+                bad = bad or ("no-retest", env, "returns after one wake-up without re-testing the window (a wake-up meant for another waiter lets it through)")
+            elif (not must_wait) and parked:
+                bad = bad or ("blocks-inside-window", env, "blocks although the limit is inside the window (upper_limit - max_difference_ <= lower_limit_)")
+    if bad:
+        rep.bad("C08.R8", wt, wt.loc, "window-wait:" + bad[0], "sliding_semaphore::wait %s; sample %s" % (bad[2], bad[1]))
+    else:
+        rep.ok("C08.R8", wt, "wait blocks exactly while upper_limit - max_difference_ > lower_limit_, parking and re-testing (%d evaluated paths)" % n, sites=n)
+    up = limit_param(tw)
+    bad = None
+    n = 0
+    for u, d, l in grid:
+        env = {up: u, "this->max_difference_": d, "this->lower_limit_": l}
+        inside = not ((u - d) > l)
+        for evs, end in eval_walk(tw, tw.entry, tree_env=env):
+            n += 1
+            if end != "return" or evs[-1][2].get("e") is None:
+                raise AnalysisBroken("sliding_semaphore::try_wait: path without a return value for %s" % env)
+            v = strip(evs[-1][2]["e"])
+            if v.get("k") != "lit":
+                raise AnalysisBroken("sliding_semaphore::try_wait returns a non-literal")
+            called_wait = any(e.get("k") == "call" and callee_short(e) == "wait" and (e.get("recv") is None or P(e["recv"]) in ("this", "this->cond_")) for _, _, e in evs)
+            if inside and v.get("v") is not True:
+                bad = bad or ("false-inside-window", env, "reports failure although the limit is inside the window")
+            if (not inside) and v.get("v") is not False:
+                bad = bad or ("true-outside-window", env, "reports success although the limit is outside the window")
+            if (not inside) and called_wait:
+                bad = bad or ("blocks", env, "enters wait() (blocks) when the limit is outside the window")
+    if bad:
+        rep.bad("C08.R8", tw, tw.loc, "window-try:" + bad[0], "sliding_semaphore::try_wait %s; sample %s" % (bad[2], bad[1]))
+    else:
+        rep.ok("C08.R8", tw, "try_wait is true exactly when upper_limit - max_difference_ <= lower_limit_ and never blocks otherwise (%d evaluated paths)" % n, sites=n)
+    # signal: lower_limit_ never moves backwards
+    lp = limit_param(sg)
+    ws = [(b, i, e) for b, i, e in sg.all_events() if e.get("k") == "write" and P(e["lhs"]) == "this->lower_limit_"]
+    if len(ws) != 1:
+        raise AnalysisBroken("sliding_semaphore::signal: expected one update of lower_limit_, found %d" % len(ws))
+    from engine.kinds import eval_tree, Unknown, expand_locals
+    okm = True
+    for new_, old_ in ((3, 7), (7, 3), (5, 5)):
+        env = {lp: new_, "this->lower_limit_": old_}
+        rhs = expand_locals(sg, ws[0][2]["rhs"])
+        try:
+            val = eval_tree(rhs, env)
+        except Unknown:
+            # (std::max)(a, b) and friends
+            r0 = strip(rhs)
+            if r0.get("k") == "call" and callee_short(r0) in ("max",) and len(r0.get("args") or []) == 2:
+                try:
+                    val = max(eval_tree(r0["args"][0], env), eval_tree(r0["args"][1], env))
+                except Unknown:
+                    raise AnalysisBroken("sliding_semaphore::signal: new lower_limit_ not evaluable: %s" % T(rhs))
+            elif r0.get("k") == "call" and callee_short(r0) in ("min",):
+                val = min(new_, old_)
+            else:
+                raise AnalysisBroken("sliding_semaphore::signal: new lower_limit_ not evaluable: %s" % T(rhs))
+        if ws[0][2].get("op") == "+=":
+            val = old_ + val
+        if val != max(new_, old_):
+            okm = False
+            rep.bad("C08.R8", sg, loc_of(ws[0][2]), "limit-not-monotone", "sliding_semaphore::signal(%d) with lower_limit_ == %d leaves %s: the limit "
+                    "must become max(old, new) (a late signal with a smaller value re-blocks waiters, a dropped larger one never releases them)" % (new_, old_, val))
+            break
+    if okm:
+        rep.ok("C08.R8", sg, "signal sets lower_limit_ = max(lower_limit, lower_limit_)")
+
+
+def wake_break_rules(rep, fns):
+    """C08.R8, second part: inside a wake loop the only early exit is 'notify_one returned false' (nobody is waiting)."""
+    from engine.kinds import loop_of as _loop_of
+    for fn in fns:
+        ns = [(b, i, e) for b, i, e in fn.all_events() if e.get("k") == "call" and callee_short(e) == "notify_one" and P(e.get("recv")) == "this->cond_"]
+        if len(ns) != 1:
+            raise AnalysisBroken("%s: expected one cond_.notify_one" % fn.qname)
+        nb = ns[0][0]
+        loop = _loop_of(fn, nb)
+        if loop is None:
+            continue            # reported by R5
+        for b in loop:
+            blk = fn.blocks[b]
+            if blk.cond is None:
+                continue
+            atom, pos = cond_atoms(blk.cond)
+            if "notify_one(" not in atom:
+                continue
+            for lab, t, _ in blk.succ:
+                if lab not in ("true", "false"):
+                    continue
+                notified = (lab == "true") == pos
+                if t not in loop and notified:
+                    rep.bad("C08.R8", fn, loc_of(ns[0][2]), "wake-loop-stops-after-first", "%s leaves its wake loop when notify_one reports that a waiter WAS "
+                            "woken: only one waiter is ever offered a wake-up, the other eligible waiters stay blocked" % fn.qname)
+                elif t not in loop:
+                    rep.ok("C08.R8", fn, "the wake loop is left early only when notify_one found nobody waiting")
